@@ -228,10 +228,7 @@ func TestC12Race(t *testing.T) {
 		iters = 1500
 	}
 	var n int64
-	for _, c := range c12Concs(t, false, env.Deep()) {
-		allowed, _ := c.Serial()
-		n += c.FreeRunConc(rep, env, allowed, iters)
-	}
+	n = schedx.FreeRunAll(rep, env, c12Concs(t, false, env.Deep()), true, iters)
 	rep.Add(n, 0, 0, 0)
 	rep.OutcomeN("free-running race-detector pass [iterations]", n)
 }
